@@ -9,6 +9,7 @@ import (
 	"sort"
 	"strings"
 	"testing"
+	"time"
 
 	"github.com/couchbase/sync_gateway/auth"
 	"github.com/couchbase/sync_gateway/base"
@@ -31,6 +32,8 @@ var c03Alphabet = []string{
 	"create-u2", "del-r1", "create-r1",
 	"g1:u1:C1", "g1:role-r1:C2", "g1:u1-gets-r1", "g1:u2:C3", "g1:none", "del-g1", "g1-conflict:u1:C4",
 	"g2:u1:C1", "del-g2",
+	// the granting document written by a revision that arrives from another Sync Gateway (version-vector protocol)
+	"g1~vv:u1:C5", "g1~vv:none",
 }
 
 type c03Grant struct {
@@ -124,6 +127,7 @@ func (w *c03World) apply(sym string) error {
 		return err
 	}
 	conflictTag := "conflict"
+	viaVV := false
 	putDoc := func(id string, body Body, g c03Grant, conflict bool) error {
 		docID := w.n(id)
 		m := w.docs[id]
@@ -159,6 +163,49 @@ func (w *c03World) apply(sym string) error {
 			return nil
 		}
 		winner, _ := c03Winner(m.leaves)
+		if viaVV {
+			// a non-conflicting revision from another Sync Gateway: its vector dominates the local one, its history
+			// continues the local winning revision
+			w.conflictN++
+			gen := 1
+			history := []string{}
+			incoming := &HybridLogicalVector{SourceID: "cmVtb3Rl", Version: uint64(time.Now().UnixNano()) + 1000000000, PreviousVersions: HLVVersions{}}
+			if winner != "" {
+				cur, err := w.coll.GetDocument(ctx, docID, DocUnmarshalSync)
+				if err != nil {
+					return err
+				}
+				g, _ := ParseRevID(ctx, winner)
+				gen = g + 1
+				history = append(history, winner)
+				if cur.HLV != nil {
+					for src, v := range cur.HLV.PreviousVersions {
+						incoming.PreviousVersions[src] = v
+					}
+					if cur.HLV.SourceID != incoming.SourceID {
+						incoming.PreviousVersions[cur.HLV.SourceID] = cur.HLV.Version
+					}
+					if cur.HLV.Version >= incoming.Version {
+						incoming.Version = cur.HLV.Version + 1000
+					}
+					delete(incoming.PreviousVersions, incoming.SourceID)
+				}
+			}
+			rev := fmt.Sprintf("%d-vv%d", gen, w.conflictN)
+			history = append([]string{rev}, history...)
+			newDoc := &Document{ID: docID, RevID: rev, HLV: incoming}
+			newDoc.UpdateBody(body)
+			if _, _, _, err := w.coll.PutExistingCurrentVersion(ctx, PutDocOptions{NewDoc: newDoc, RevTreeHistory: history, NewDocHLV: incoming, ISGRWrite: true,
+				ConflictResolver: NewConflictResolver(DefaultLWWConflictResolutionType, nil)}); err != nil {
+				return err
+			}
+			if winner != "" {
+				delete(m.leaves, winner)
+			}
+			m.leaves[rev] = c03LeafModel{grant: g}
+			w.curRev[id] = rev
+			return nil
+		}
 		if winner != "" {
 			body[BodyRev] = winner
 		}
@@ -238,6 +285,9 @@ func (w *c03World) apply(sym string) error {
 	}
 	// granting document writes: "<doc>[-conflict]:<grantee>:<channel>" or "<doc>:u1-gets-r1" or "<doc>:none"
 	parts := strings.Split(sym, ":")
+	if strings.HasSuffix(parts[0], "~vv") {
+		parts[0], viaVV = strings.TrimSuffix(parts[0], "~vv"), true
+	}
 	id := parts[0]
 	conflict := false
 	for suffix, tag := range map[string]string{"-conflict": "conflict", "-conflicthi": "zzconflict", "-conflictlo": "00conflict"} {
@@ -539,7 +589,6 @@ func TestVerifC03(t *testing.T) {
 		r.Cap("time budget reached before all histories were explored")
 	}
 }
-
 
 // ---- collection layouts: the same enumeration where the granting documents and admin assignments live in a named
 // collection (named scope; or the _default scope next to the default collection) or in the default collection next to
